@@ -968,6 +968,58 @@ func firstUseOrder(rep *Report, r *rng.R) int {
 	return n
 }
 
+func firstN(s string, n int) string {
+	if len(s) > n {
+		return s[:n]
+	}
+	return s
+}
+
+type recentStmt struct {
+	q       string
+	samples []any
+}
+
+// runL2PrepareBetween prepares the case's statement, then prepares the given other
+// statements, then runs the case's statement.
+func runL2PrepareBetween(c *l2Case, others []recentStmt) (res *l2Run) {
+	res = &l2Run{mode: "none"}
+	defer func() {
+		if p := recover(); p != nil {
+			res.panic = fmt.Sprint(p)
+		}
+	}()
+	env := newL2Env()
+	defer env.db.PlainDB().Close()
+	stmt, err := sqlair.Prepare(c.Q, c.Samples...)
+	if err != nil {
+		res.prepErr = err.Error()
+		return res
+	}
+	res.prepOk = true
+	for _, o := range others {
+		sqlair.Prepare(o.q, o.samples...)
+	}
+	err = env.db.Query(context.Background(), stmt, c.Args...).Run()
+	for _, e := range env.state.Events() {
+		switch e.Kind {
+		case "prepare":
+			res.sql = e.SQL
+		case "exec", "query":
+			res.mode = e.Kind
+			for i, n := range e.Names {
+				res.params = append(res.params, [2]string{n, e.Args[i]})
+			}
+		}
+	}
+	if err != nil && strings.HasPrefix(err.Error(), "invalid input parameter: ") {
+		res.bindErr = err.Error()
+		return res
+	}
+	res.bindOk = true
+	return res
+}
+
 type earlyCase struct {
 	c   *l2Case
 	key string
@@ -976,6 +1028,7 @@ type earlyCase struct {
 
 func runL2(args []string) {
 	var early []earlyCase
+	var recent []recentStmt
 	fs := flag.NewFlagSet("l2", flag.ExitOnError)
 	n := fs.Int("n", 1500, "number of generated cases")
 	seed := fs.Uint64("seed", 1, "seed")
@@ -1011,9 +1064,32 @@ func runL2(args []string) {
 	hyp := map[string]int{}
 	parseRejected := 0
 
+	bigSQL := func() {
+		// a statement whose generated SQL is far beyond any buffer size a builder might pool
+		// (tens of thousands of placeholders): it must be sent right, and so must every
+		// statement after it (they are the run's ordinary cases)
+		n := 20000 + r.Intn(20000)
+		ints := make(zoo.Ints, n)
+		for i := range ints {
+			ints[i] = i
+		}
+		c := &l2Case{Q: "DELETE FROM t WHERE a IN ($Ints[:])", Samples: []any{zoo.Ints{}}, Args: []any{ints}}
+		res := runL2Case(c, c.Samples, c.Args)
+		hyp["big-sql-statements"]++
+		want := "DELETE FROM t WHERE a IN (@sqlair_0"
+		if res.panic != "" || !res.bindOk || !strings.HasPrefix(res.sql, want) || strings.Count(res.sql, "@sqlair_") != n || len(res.params) != n ||
+			!strings.HasSuffix(res.sql, fmt.Sprintf(", @sqlair_%d)", n-1)) {
+			rep.addHolds("C01", Finding{Case: map[string]any{"q": hx(c.Q), "text": printable(c.Q), "args": fmt.Sprintf("zoo.Ints of length %d", n)}, Kind: "holds",
+				Detail: fmt.Sprintf("a statement with %d slice elements was not sent as the query text with its placeholders: %d bytes beginning %q", n, len(res.sql), firstN(res.sql, 80)),
+				Holds: map[string]bool{"C01": false}})
+		}
+	}
 	hyp["concurrent-first-use-types"] = concurrentFirstUse(rep, cl, r.Fork())
 	hyp["first-use-order-pairs"] = firstUseOrder(rep, r.Fork())
 	for i := 0; i < *n; i++ {
+		if i == 40 || i == *n/2 {
+			bigSQL()
+		}
 		if hangCount >= maxHangs {
 			rep.Notes = append(rep.Notes, fmt.Sprintf("stopped after %d of %d cases: %d calls hung", i, *n, hangCount))
 			break
@@ -1044,6 +1120,13 @@ func runL2(args []string) {
 		detail := ""
 		valuesStray := ""
 		afterAccepts := "" // arguments a fresh Statement rejects were accepted after a first run (C08)
+		sqlChanged := ""   // the SQL of a prepared Statement changed when others were prepared (C05 / C04 / C03 too)
+		k2 := func(r *l2Run) string {
+			if r.mode == "none" {
+				return fmt.Sprint(r.prepOk, r.bindOk, r.mode)
+			}
+			return r.key()
+		}
 		{
 			a2 := append([]any{}, c.Args...)
 			for i := range a2 {
@@ -1096,6 +1179,24 @@ func runL2(args []string) {
 					if r4.bindOk && !res.bindOk {
 						afterAccepts = detail
 					}
+				}
+			}
+			if res.prepOk && len(recent) > 0 {
+				// other statements prepared between this one's Prepare and its run (the last few
+				// statements of the run, which often share its types): nothing changes
+				r5 := runL2PrepareBetween(c, recent)
+				if r5.panic == "" && k2(r5) != k2(res) {
+					det = false
+					detail = fmt.Sprintf("a Statement sent something else after other statements had been prepared between its Prepare and its run: %v vs %v", r5.obs(), res.obs())
+					if r5.sql != res.sql && r5.mode != "none" && res.mode != "none" {
+						sqlChanged = detail
+					}
+				}
+			}
+			if res.prepOk {
+				recent = append(recent, recentStmt{c.Q, c.Samples})
+				if len(recent) > 6 {
+					recent = recent[1:]
 				}
 			}
 			if *conc > 0 && res.prepOk {
@@ -1154,6 +1255,17 @@ func runL2(args []string) {
 		if afterAccepts != "" {
 			holds["C08"] = false
 		}
+		if sqlChanged != "" {
+			// which expansion changed decides the property besides C16
+			switch {
+			case strings.Contains(res.sql, " AS _sqlair_"):
+				holds["C05"] = false
+			case strings.Contains(strings.ToUpper(res.sql), "VALUES"):
+				holds["C04"] = false
+			default:
+				holds["C03"] = false
+			}
+		}
 		anyBad := false
 		for p, ok := range holds {
 			if !ok {
@@ -1167,6 +1279,9 @@ func runL2(args []string) {
 				}
 				if p == "C08" && afterAccepts != "" {
 					d = afterAccepts
+				}
+				if (p == "C05" || p == "C04" || p == "C03") && sqlChanged != "" && valuesStray == "" {
+					d = sqlChanged
 				}
 				rep.addHolds(p, Finding{Case: describeL2(c), Kind: "holds", Detail: d, Holds: holds, Impl: res.obs(), Model: resp["model"]})
 			}
